@@ -7,35 +7,60 @@ fn verdict(v: V) -> Option<String> {
     v.fail
 }
 
+/// Documents reach the parsers through FileParser, which folds CR LF; the parsers themselves drop
+/// one more CR before each LF (`str::lines`). A *run* of CRs before LF (CR CR LF files) therefore
+/// loses one CR per pass: line-ending material, not line content. The byte-level targets work on
+/// LF documents: every CR run directly before LF is folded away first, a CR run at the very end
+/// is cut down to one CR (DESIGN.md section 6).
+fn lf_document(data: &[u8]) -> String {
+    let mut b = data.to_vec();
+    loop {
+        let folded = crate::c13::fold_crlf(&b);
+        if folded.len() == b.len() {
+            break;
+        }
+        b = folded;
+    }
+    // the same at the end of the text: a run of CRs there shrinks to the one CR that a truncated
+    // CR LF document ends in
+    while b.len() >= 2 && b[b.len() - 1] == b'\r' && b[b.len() - 2] == b'\r' {
+        b.pop();
+    }
+    String::from_utf8_lossy(&b).to_string()
+}
+
 /// one fuzz binary serves one property: load its open known-finding keys once
 fn init(property: &str) {
     static ONCE: std::sync::Once = std::sync::Once::new();
     ONCE.call_once(|| init_open_keys(property));
 }
 
-/// C06 (+C10): any UTF-8 text as Markdown document
+/// C06: any UTF-8 text as Markdown document (parser invariants only)
 pub fn markdown(data: &[u8]) -> Option<String> {
     init("C06");
-    // every caller reads documents through FileParser, which folds CR LF first
-    let text = String::from_utf8_lossy(&crate::c13::fold_crlf(data)).to_string();
+    let text = lf_document(data);
     match crate::c06::md_parse(&text) {
         Err(p) => Some(format!("Markdown parser crashed: {p}")),
         Ok(Err(_)) => None,
-        Ok(Ok((_, tests))) => {
-            if let Err(m) = crate::c06::line_number_invariant(&text, &tests) {
-                return Some(m);
-            }
-            // update with "every test produced no output and exit code 0" must not crash and must
-            // keep the commands
-            crate::c10::fuzz_update(&text, &tests)
-        }
+        Ok(Ok((_, tests))) => crate::c06::line_number_invariant(&text, &tests).err(),
+    }
+}
+
+/// C10: any UTF-8 text as Markdown document; `update` with "every test produced no output and
+/// exit code 0" must not crash, must keep the commands and, where the result passes, be idempotent
+pub fn update(data: &[u8]) -> Option<String> {
+    init("C10");
+    let text = lf_document(data);
+    match crate::c06::md_parse(&text) {
+        Err(_) | Ok(Err(_)) => None, // the parser is C06's subject
+        Ok(Ok((_, tests))) => crate::c10::fuzz_update(&text, &tests),
     }
 }
 
 /// C07: any UTF-8 text as Cram document
 pub fn cram(data: &[u8]) -> Option<String> {
     init("C07");
-    let text = String::from_utf8_lossy(&crate::c13::fold_crlf(data)).to_string();
+    let text = lf_document(data);
     let lines: Vec<String> = text.lines().map(String::from).collect();
     verdict(crate::c07::check_soup_lines(&lines))
 }
@@ -96,6 +121,7 @@ pub fn render(data: &[u8]) -> Option<String> {
 pub fn run_target(target: &str, data: &[u8]) -> Result<Option<String>, String> {
     Ok(match target {
         "markdown" => markdown(data),
+        "update" => update(data),
         "cram" => cram(data),
         "expectation" => expectation(data),
         "escape" => escape(data),
